@@ -27,33 +27,46 @@ PROVED FOR ALL STATES / ARGUMENTS / FUEL (no admissibility hypothesis is needed:
                        clearParent_invX opens it, replaceChild_some_inv closes it) and the
                        `_reset_content_id` walk (resetContentId_inv: the single stale content id moves one
                        node up per step until the root is reached = "changes propagate to all ancestors");
-  inv_step_rwith_partial          `replace_with`, receiver without a parent, new = None or a detached node;
-  inv_step_rwith_parent_partial   `replace_with`, receiver WITH a parent, new = a detached node, under the
-                                  hypothesis that the parent is not a descendant of the receiver (`¬ Desc s u p`:
-                                  no cycle through the receiver);
-  inv_run_partial lifts all of them over histories.
+  inv_step_rwith  -- **`replace_with(new)`, EVERY receiver and EVERY argument**: receiver = attached root /
+                     detached node / child of a parent; new = None / a detached node / an attached root:
+      * receiver with a parent, new = None: `_replace_child` REMOVES the child and shifts the indexes of the later
+        siblings down (Props/LegacyRemove.lean: kidsPos_removed, removed_invX, replaceChild_none_inv,
+        replaceWith_inv_parent_none);
+      * new = an ATTACHED ROOT (receiver with or without parent): the new node is popped from the registry, takes
+        the receiver's id and is attached again; in between its children's parent ids dangle.  The commit step of
+        `_attach` overwrites those slots, so the result equals the result of the regular route `detach_self()` + id
+        swap + commit, all of whose states satisfy the invariant (Props/LegacyTakeOver.lean: attach_roots,
+        commitOne_takeOver, takeOver_attach_invX); `child.replace_with(its own attached-root parent)` is rejected
+        (takeOver_parent_fails);
+      * NO acyclicity hypothesis any more: the invariant does not exclude cycles of length >= 2, but on a heap with
+        a cycle through the receiver the `detach()` of the receiver's subtree never returns (the model answers
+        `hang`), so an answered call had no such cycle (Props/LegacyCycle.lean: detachGo_keeps -- a finished
+        `detach()` never unregisters a node of a set of attached nodes each of which has a child in the set,
+        because a node is unregistered only after all its children are -- detach_no_cycle, rwith_open);
+  inv_step / inv_run / inv_run_init   ALL operations of `LOp`, over histories: the invariant holds after every
+                     history each of whose steps returned (no exception), from the empty world.
+  The older names are kept: inv_step_rwith_partial, inv_step_rwith_parent_partial (special cases),
+  inv_step_partial = inv_step, inv_run_partial = inv_run, inv_run_init_partial = inv_run_init; `LOp.proved` now
+  accepts every `.rwith`.
 The only side conditions are well-formedness of the request (`LOp.proved`): child-field names of a new
-class instance are distinct and a single (required / optional) field holds at most one node.
+class instance are distinct and a single (required / optional) field holds at most one node (construct /
+replace); `replace_with` has no side condition.
 
-PARTIAL — full statements (kept visible here, not proved):
+STILL OUTSIDE THE LEAN MODEL (unchanged): the transform visitor and `ASTTransformer.execute` are compositions
+of these operations driven by user callbacks; they are not modelled in Lean.  They are exercised on every run by
+the K1 differential (model = real code, full state dump after every operation) and by the invariant oracle
+evaluated on the real objects (harness/props/c18.py).
 
-  theorem inv_step_rwith   : Inv Hc s → step H Hc s (.rwith u new) = (s', out) → out.isOk → Inv Hc s'
-  theorem inv_run          : Inv Hc (run H Hc init ops)          -- given every step returned ok
-
-  What is missing for `replace_with`: (1) receiver with a parent and `new = None`: the variant of
-  `_replace_child` that REMOVES the child (index shift of the later siblings); (2) `new` = an ATTACHED root: its
-  children's parent ids dangle while the ids are swapped (outside `noDangling`); (3) dropping `¬ Desc s u p`: on a
-  heap with a cycle through the receiver the `detach` of its subtree runs into the parent; one has to show that
-  such a run does not end (fuel) -- `detachGo_desc` (a run only unregisters descendants) is the available half.
-  The transform visitor and `ASTTransformer.execute` are compositions of these operations driven by user
-  callbacks; they are not modelled in Lean.  All of these branches are exercised on every run by the K1
-  differential (model = real code, full state dump after every operation) and by the invariant oracle
-  evaluated on the real objects (harness/props/c18.py).
+REMARK (inadmissible argument, not a proof gap): `node.replace_with(r)` where `r` is the attached root of the tree
+that contains `node` puts `r` under its own descendant; the `_reset_content_id` walk of `_replace_child` then
+never ends (the model answers `hang`, the library loops) -- see `example … = .raised .hang` at the end.
 -/
 import PyOak.Props.LegacyDetach
 import PyOak.Props.LegacyConstruct
 import PyOak.Props.LegacyReplace
 import PyOak.Props.LegacyRemove
+import PyOak.Props.LegacyCycle
+import PyOak.Props.LegacyTakeOver
 namespace PyOak.Legacy.C18
 open PyOak PyOak.Legacy LState
 
@@ -157,8 +170,8 @@ theorem inv_step_dup {s s' : LState} {u : Nat} {clone : Bool} {out : LOut} (hI :
         simp [ofNode] at h; obtain ⟨rfl, _⟩ := h
         exact (duplicate_ok H Hc _ _ _ s u s1 n hI (hlt u (by simp [LOp.refs])) hc).1
 
-/-- `replace(**changes)` on a receiver that has no parent (an attached root or a detached node).
-(Full statement without `hroot`: see the header — not proved.) -/
+/-- `replace(**changes)` on a receiver that has no parent (an attached root or a detached node)
+(special case of `inv_step_replace`) -/
 theorem inv_step_replace_partial {s s' : LState} {u : Nat} {ch : Changes} {out : LOut} (hI : Inv Hc s)
     (hroot : s.parent u = none) (hwf : ch.wfFor (s.obj u))
     (h : step H Hc s (.replace u ch) = (s', out)) (hok : out.isOk = true) : Inv Hc s' := by
@@ -259,8 +272,8 @@ theorem inv_step_replace {s s' : LState} {u : Nat} {ch : Changes} {out : LOut} (
           exact replace_inv_parent H Hc hI (hlt u (by simp [LOp.refs])) hp
             (fun c hc' => hlt c (by simp only [LOp.refs, List.mem_cons]; exact .inr hc')) hwf hc
 
-/-- `replace_with(new)` on a receiver that has no parent, `new` being `None` or a detached node.
-(Full statement without `hroot` / `hnew`: see the header — not proved.) -/
+/-- `replace_with(new)` on a receiver that has no parent, `new` being `None` or a detached node
+(special case of `inv_step_rwith`, kept under its old name) -/
 theorem inv_step_rwith_partial {s s' : LState} {u : Nat} {new : Option Nat} {out : LOut} (hI : Inv Hc s)
     (hroot : s.parent u = none) (hnew : ∀ n, new = some n → s.detached n = true)
     (h : step H Hc s (.rwith u new) = (s', out)) (hok : out.isOk = true) : Inv Hc s' := by
@@ -338,8 +351,8 @@ theorem inv_step_rwith_partial {s s' : LState} {u : Nat} {new : Option Nat} {out
               · simp [ofUnit] at h; obtain ⟨_, rfl⟩ := h; simp [LOut.isOk] at hok
 
 /-- `replace_with(new)` on a receiver that HAS a parent, `new` a detached node, provided the parent is
-not a descendant of the receiver (no cycle through the receiver).
-(Full statement: see the header — `new = None`, an attached `new`, and cyclic heaps are not proved.) -/
+not a descendant of the receiver (special case of `inv_step_rwith`, which needs neither hypothesis; kept
+under its old name) -/
 theorem inv_step_rwith_parent_partial {s s' : LState} {u p n : Nat} {out : LOut} (hI : Inv Hc s)
     (hpar : s.parent u = some p) (hnd : s.detached n = true) (hacyc : ¬ Desc s u p)
     (h : step H Hc s (.rwith u (some n)) = (s', out)) (hok : out.isOk = true) : Inv Hc s' := by
@@ -360,6 +373,26 @@ theorem inv_step_rwith_parent_partial {s s' : LState} {u p n : Nat} {out : LOut}
         exact replaceWith_inv_parent_some Hc hI (hlt u (by simp [LOp.refs])) (hlt n (by simp [LOp.refs]))
           hpar hnd hacyc hc
 
+/-- **`replace_with(new)`**: every receiver (attached root, detached node, child of a parent) and every
+argument (`None`, a detached node, an attached root); no side condition -/
+theorem inv_step_rwith {s s' : LState} {u : Nat} {new : Option Nat} {out : LOut} (hI : Inv Hc s)
+    (h : step H Hc s (.rwith u new) = (s', out)) (hok : out.isOk = true) : Inv Hc s' := by
+  unfold step at h
+  split at h
+  · cases h; simp [LOut.isOk] at hok
+  · next hr =>
+    simp only at h
+    have hlt := refs_lt (by simpa using hr)
+    cases hc : replaceWith Hc (fuelOf s) s u new with
+    | mk s1 res =>
+      rw [hc] at h
+      cases res with
+      | error e => simp [ofUnit] at h; obtain ⟨_, rfl⟩ := h; simp [LOut.isOk] at hok
+      | ok x =>
+        cases x
+        simp [ofUnit] at h; obtain ⟨rfl, _⟩ := h
+        exact replaceWith_inv Hc hI (fun n hn => hlt n (by simp [LOp.refs, hn])) hc
+
 /-- `replace_with` on a child: `new` is a detached node and walking up from the parent reaches a root
 without meeting the receiver (computable form of "the parent is not a descendant of the receiver") -/
 def rwithParentOk (s : LState) (u : Nat) (new : Option Nat) : Bool :=
@@ -367,21 +400,15 @@ def rwithParentOk (s : LState) (u : Nat) (new : Option Nat) : Bool :=
   | some p, some n => s.detached n && upFree s u (s.size + 1) p
   | _, _ => false
 
-/-- the operations whose invariant preservation is proved -/
+/-- the side conditions under which invariant preservation is proved: well-formedness of the request for
+construct / replace, nothing for the other operations (in particular every `replace_with`) -/
 def LOp.proved (s : LState) : LOp → Prop
   | .new sp => (newObj sp).wf
-  | .attach _ | .detach _ _ | .dup _ _ => True
+  | .attach _ | .detach _ _ | .dup _ _ | .rwith _ _ => True
   | .replace u ch => ch.wfFor (s.obj u)
-  | .rwith u new =>
-    (s.parent u = none ∧ (match new with | none => True | some n => s.detached n = true)) ∨
-    rwithParentOk s u new = true
 
 instance (s : LState) (op : LOp) : Decidable (LOp.proved s op) := by
-  cases op <;> unfold LOp.proved <;> try infer_instance
-  next u new =>
-    have : Decidable (s.parent u = none ∧ (match new with | none => True | some n => s.detached n = true)) := by
-      cases new <;> infer_instance
-    exact instDecidableOr
+  cases op <;> unfold LOp.proved <;> infer_instance
 
 /-- one step of a history, for the operations in `proved` -/
 theorem inv_step_partial {s s' : LState} {op : LOp} {out : LOut} (hI : Inv Hc s) (hp : LOp.proved s op)
@@ -391,25 +418,7 @@ theorem inv_step_partial {s s' : LState} {op : LOp} {out : LOut} (hI : Inv Hc s)
   | attach u => exact inv_step_attach H Hc hI h hok
   | detach u os => exact inv_step_detach H Hc hI h hok
   | replace u ch => exact inv_step_replace H Hc hI hp h hok
-  | rwith u n =>
-    rcases hp with hp | hp
-    · refine inv_step_rwith_partial H Hc hI hp.1 ?_ h hok
-      intro m hm; subst hm; exact hp.2
-    · unfold rwithParentOk at hp
-      cases hpar : s.parent u with
-      | none => rw [hpar] at hp; simp at hp
-      | some p =>
-        cases n with
-        | none => rw [hpar] at hp; simp at hp
-        | some m =>
-          rw [hpar] at hp
-          simp only [Bool.and_eq_true] at hp
-          have hua : Att s u := by
-            unfold LState.parent at hpar
-            cases hk : (s.obj u).pid with
-            | none => rw [hk] at hpar; cases hpar
-            | some k => exact (hI.noDangling u k hk).1
-          exact inv_step_rwith_parent_partial H Hc hI hpar hp.1 (not_desc_of_upFree hI hua hp.2) h hok
+  | rwith u n => exact inv_step_rwith H Hc hI h hok
   | dup u c => exact inv_step_dup H Hc hI h hok
 
 /-- a history all of whose steps returned and lie in the proved fragment -/
@@ -432,6 +441,18 @@ theorem inv_run_partial : ∀ (ops : List LOp) (s : LState), Inv Hc s → GoodRu
 /-- … in particular from the empty world -/
 theorem inv_run_init_partial (ops : List LOp) (hg : GoodRun H Hc init ops) : Inv Hc (run H Hc init ops) :=
   inv_run_partial H Hc ops init (inv_init Hc) hg
+
+/-- **one step, any operation** (the side conditions `LOp.proved` concern construct / replace only) -/
+theorem inv_step {s s' : LState} {op : LOp} {out : LOut} (hI : Inv Hc s) (hp : LOp.proved s op)
+    (h : step H Hc s op = (s', out)) (hok : out.isOk = true) : Inv Hc s' :=
+  inv_step_partial H Hc hI hp h hok
+
+/-- **histories**: the invariant holds after every history all of whose steps returned -/
+theorem inv_run (ops : List LOp) (s : LState) (hI : Inv Hc s) (hg : GoodRun H Hc s ops) :
+    Inv Hc (run H Hc s ops) := inv_run_partial H Hc ops s hI hg
+
+theorem inv_run_init (ops : List LOp) (hg : GoodRun H Hc init ops) : Inv Hc (run H Hc init ops) :=
+  inv_run_init_partial H Hc ops hg
 
 /-! ### what the invariant says about the observables of the property -/
 
@@ -604,6 +625,69 @@ example : Inv id (step id id (st histP) (.rwith 0 (some 2))).1 :=
     (out := outOf histP (.rwith 0 (some 2))) rfl (by decide)
 example : ((step id id (st histP) (.rwith 0 (some 2))).1.obj 1).kidList = [2] := by decide
 example : GoodRun id id init (histP ++ [.rwith 0 (some 2)]) := by decide
+
+-- replace_with(None) on a CHILD of a tuple field: the later sibling moves down by one index
+def histT : List LOp := [.new (leaf "1"), .new (leaf "2"), .new (leaf "3"), .new (tup [0, 1, 2])]
+example : (st histT).parent 1 = some 3 ∧ ((st histT).obj 2).pindex = some 2 := by decide
+example : Inv id (step id id (st histT) (.rwith 1 none)).1 :=
+  inv_step_rwith id id (s := st histT) (u := 1) (new := none)
+    (inv_run_init id id histT (by decide)) (out := outOf histT (.rwith 1 none)) rfl (by decide)
+example : ((step id id (st histT) (.rwith 1 none)).1.obj 3).kidList = [0, 2] ∧
+    ((step id id (st histT) (.rwith 1 none)).1.obj 2).pindex = some 1 ∧
+    ((step id id (st histT) (.rwith 1 none)).1.obj 0).pindex = some 0 := by decide
+example : GoodRun id id init (histT ++ [.rwith 1 none, .rwith 0 none, .rwith 2 none]) := by decide
+-- replace_with(None) on the child in a required field is refused
+example : outOf histP (.rwith 0 none) = .raised .replaceWithError := by decide
+-- replace_with(an ATTACHED ROOT) on a receiver WITHOUT parent: root 1 (over leaf 0) is replaced by root 3 (over leaf 2)
+def histA : List LOp := [.new (leaf "1"), .new (un 0), .new (leaf "2"), .new (un 2)]
+example : (st histA).isAttachedRoot 1 = true ∧ (st histA).isAttachedRoot 3 = true := by decide
+example : Inv id (step id id (st histA) (.rwith 1 (some 3))).1 :=
+  inv_step_rwith id id (s := st histA) (u := 1) (new := some 3)
+    (inv_run_init id id histA (by decide)) (out := outOf histA (.rwith 1 (some 3))) rfl (by decide)
+example : Att (step id id (st histA) (.rwith 1 (some 3))).1 3 ∧
+    (step id id (st histA) (.rwith 1 (some 3))).1.parent 2 = some 3 ∧
+    (step id id (st histA) (.rwith 1 (some 3))).1.idOf 3 = (st histA).idOf 1 ∧
+    (step id id (st histA) (.rwith 1 (some 3))).1.detached 1 = true := by decide
+-- replace_with(an ATTACHED ROOT) on a receiver WITH a parent: leaf 0 under node 1 is replaced by root 3 (over leaf 2)
+example : (st histA).parent 0 = some 1 := by decide
+example : Inv id (step id id (st histA) (.rwith 0 (some 3))).1 :=
+  inv_step_rwith id id (s := st histA) (u := 0) (new := some 3)
+    (inv_run_init id id histA (by decide)) (out := outOf histA (.rwith 0 (some 3))) rfl (by decide)
+example : ((step id id (st histA) (.rwith 0 (some 3))).1.obj 1).kidList = [3] ∧
+    (step id id (st histA) (.rwith 0 (some 3))).1.parent 3 = some 1 ∧
+    (step id id (st histA) (.rwith 0 (some 3))).1.parent 2 = some 3 ∧
+    ((step id id (st histA) (.rwith 0 (some 3))).1.obj 1).cid ≠ ((st histA).obj 1).cid := by decide
+example : GoodRun id id init (histA ++ [.rwith 0 (some 3), .rwith 2 (some 0), .rwith 1 none]) := by decide
+-- child.replace_with(its own attached-root parent) is rejected (`takeOver_parent_fails`), nothing changes
+example : outOf histA (.rwith 0 (some 1)) = .raised .replaceWithError := by decide
+-- an inadmissible argument: replacing a node by the root of its own tree would put the root under its own
+-- descendant; the `_reset_content_id` walk does not end (the library loops)
+def histC : List LOp := [.new (leaf "1"), .new (un 0), .new (un 1)]
+example : outOf histC (.rwith 0 (some 2)) = .raised .hang := by decide
+theorem ok_of_toBool {e : Except Err Unit} (h : e.toBool = true) : e = .ok () := by
+  cases e with
+  | error _ => simp [Except.toBool] at h
+  | ok x => cases x; rfl
+-- the pieces: no cycle through an answered receiver, the opened state, the removal, the id take-over
+example : ¬ Desc (st histA) 0 1 :=
+  detach_no_cycle id (s := st histA) (u := 0) (p := 1) (fuel := 6) (b := true)
+    (s2 := (detachGo 6 false ((st histA).clearParent 0) 0).1) (inv_run_init id id histA (by decide)) (by decide)
+    (by decide) (Prod.ext rfl (by decide))
+example : ∃ f, Opened id (st histA) (detachGo 6 false ((st histA).clearParent 0) 0).1 0 1 f :=
+  rwith_open id (fuel := 6) (b := true) (inv_run_init id id histA (by decide)) (by decide) (Prod.ext rfl (by decide))
+example : Inv id (replaceWith id 5 (st histT) 1 none).1 :=
+  replaceWith_inv_parent_none id (s := st histT) (u := 1) (p := 3) (fuel := 5)
+    (inv_run_init id id histT (by decide)) (by decide) (Prod.ext rfl (ok_of_toBool (by decide)))
+example : Inv id (replaceWith id 5 (st histA) 1 (some 3)).1 :=
+  replaceWith_inv_root id (s := st histA) (u := 1) (fuel := 5) (new := some 3)
+    (inv_run_init id id histA (by decide)) (by intro n h; cases h; decide) (by decide) (Prod.ext rfl (ok_of_toBool (by decide)))
+example : Inv id (replaceWith id 5 (st histA) 0 (some 3)).1 :=
+  replaceWith_inv_parent_any id (s := st histA) (u := 0) (p := 1) (n := 3) (fuel := 5)
+    (inv_run_init id id histA (by decide)) (by decide) (by decide) (Prod.ext rfl (ok_of_toBool (by decide)))
+-- any history whose steps returned: `inv_step`, `inv_run`
+example : Inv id (step id id (st histA) (.rwith 0 (some 3))).1 :=
+  inv_step id id (s := st histA) (op := .rwith 0 (some 3)) (inv_run id id histA init (inv_init id) (by decide))
+    trivial (out := outOf histA (.rwith 0 (some 3))) rfl (by decide)
 
 -- after the history: node 5 is attached, its parent is node 6 (the clone that replaced node 3) …
 example : Att (st hist) 5 ∧ (st hist).parent 5 = some 6 := by decide
